@@ -146,7 +146,7 @@ fn build_fx(sc: &Scenario) -> Fx {
         (a, b)
     };
     let ijk = if sc.driver == "partial_hessian" { [sc.m, 0, 0] } else { sc.ijk };
-    Fx { polys, a, b, ijk, scale: 0 }
+    Fx { polys, a, b, ijk, scale: 0, style: r.next() }
 }
 
 /// the power of two the closure multiplies its result with (scale_mode), from the unscaled reference
